@@ -294,86 +294,72 @@ def rule_r2(prog, res) -> None:
             res.ok("C08.R2", res.site(init, "open data file"), "data file is only opened in a directory that did not exist (exists -> raise)")
         else:
             res.violation("C08.R2", init, opens[0].ast, "a patch data file can be appended to / rewritten inside an existing patch directory while the catalog marker may be valid", key_extra="data-file-in-existing-dir")
-    # results: .dat is the header file that validates .smp; stale .smp must go before .dat is rewritten
+    # results: .dat is the header file that validates .smp; stale .smp must go before .dat is rewritten.
+    # Decided on the sequence of file operations of every path of to_files (symbolic store: helpers looked through,
+    # loops over literal suffix tuples unrolled, module constants resolved)
+    from ..effects import const_str
+
     for fi in prog.funcs:
         if fi.name != "to_files" or fi.is_abstract:
             continue
-        cfg = cfg_of(fi.node)
         res.touch(fi)
-        order = []  # (node, suffix, kind)
-        for nd in cfg.nodes:
-            for c in nd.calls():
-                for a in [*c.args, *[k.value for k in c.keywords]]:
-                    for x in ast.walk(a):
-                        if isinstance(x, ast.Call) and isinstance(x.func, ast.Attribute) and x.func.attr == "with_suffix" and x.args and isinstance(x.args[0], ast.Constant):
-                            f = c.func
-                            kind = "unlink" if isinstance(f, ast.Attribute) and f.attr == "unlink" else "write"
-                            # x is the receiver of .unlink()
-                            order.append((nd, x.args[0].value, kind))
-                f = c.func
+        paths = [p for p in symx.explore(prog, fi, env={"on_root()": True, "on_worker()": False}, inline=symx.inline_private_helpers(prog, public={"write_data", "write_samples", "write_covariance", "write_header"}), skip_tests=("logger",)) if p.outcome != "raise"]
+
+        def suffixes(ev, e):
+            out = []
+            for x in ast.walk(e):
+                if isinstance(x, ast.Call) and isinstance(x.func, ast.Attribute) and x.func.attr == "with_suffix" and x.args:
+                    sfx = const_str(prog, ev.fi, x.args[0]) or const_str(prog, fi, x.args[0])
+                    if sfx is None:
+                        raise AnalysisError(f"C08.R2: file suffix {unparse(x.args[0])[:30]} in {fi.short} cannot be resolved")
+                    out.append(sfx)
+            return out
+
+        n_seq = 0
+        for p in paths:
+            ops = []  # (kind, suffix, event)
+            for ev in p.calls():
+                f = ev.expr.func
                 if isinstance(f, ast.Attribute) and f.attr == "unlink":
-                    for x in ast.walk(f.value):
-                        if isinstance(x, ast.Call) and isinstance(x.func, ast.Attribute) and x.func.attr == "with_suffix" and x.args and isinstance(x.args[0], ast.Constant):
-                            order.append((nd, x.args[0].value, "unlink"))
-                        elif isinstance(x, ast.Name):
-                            # loop variable over literal suffixes
-                            for loop in walk_no_nested(fi.node):
-                                if isinstance(loop, ast.For) and isinstance(loop.target, ast.Name) and loop.target.id == x.id and isinstance(loop.iter, (ast.Tuple, ast.List)):
-                                    for el in loop.iter.elts:
-                                        if isinstance(el, ast.Constant):
-                                            order.append((nd, el.value, "unlink"))
-                    for x in ast.walk(f.value):
-                        if isinstance(x, ast.Call) and isinstance(x.func, ast.Attribute) and x.func.attr == "with_suffix" and x.args and isinstance(x.args[0], ast.Name):
-                            for loop in walk_no_nested(fi.node):
-                                if isinstance(loop, ast.For) and isinstance(loop.target, ast.Name) and loop.target.id == x.args[0].id and isinstance(loop.iter, (ast.Tuple, ast.List)):
-                                    for el in loop.iter.elts:
-                                        if isinstance(el, ast.Constant):
-                                            order.append((nd, el.value, "unlink"))
-        writes = {s: nd for nd, s, k in order if k == "write"}
-        unlinks = {}
-        for nd, s, k in order:
-            if k == "unlink":
-                unlinks.setdefault(s, []).append(nd)
-        if ".dat" not in writes or ".smp" not in writes:
-            raise AnalysisError("C08.R2: result writer does not write .dat/.smp through with_suffix (idiom not recognised)")
-        dat, smp = writes[".dat"], writes[".smp"]
-        # mutual validation: when one of the files from_files() needs is rewritten, the other one must already be
-        # new (written earlier in this call) or gone
-        for x_suf, y_suf in ((".smp", ".dat"), (".dat", ".smp")):
-            wx, wy = writes[x_suf], writes[y_suf]
-            ok_nodes = list(unlinks.get(y_suf, [])) + [wy]
-            r_ = cfg.reach([cfg.entry], avoid=lambda n_, ok_nodes=ok_nodes: n_ in ok_nodes)
-            if x_suf == ".smp" and wx.id in r_ and not any(h_ for h_ in cfg.nodes if h_.kind == "for" and isinstance(h_.expr, (ast.Tuple, ast.List)) and any(isinstance(e_, ast.Constant) and e_.value == y_suf for e_ in h_.expr.elts)):
+                    for sfx in suffixes(ev, f.value):
+                        ops.append(("unlink", sfx, ev))
+                elif not (isinstance(f, ast.Attribute) and f.attr == "with_suffix"):
+                    for a in [*ev.expr.args, *[k.value for k in ev.expr.keywords]]:
+                        for sfx in suffixes(ev, a):
+                            ops.append(("write", sfx, ev))
+            first_write = {}
+            for i, (k, sfx, ev) in enumerate(ops):
+                if k == "write":
+                    first_write.setdefault(sfx, i)
+            if not first_write:
+                continue
+            n_seq += 1
+            if ".dat" not in first_write or ".smp" not in first_write:
+                raise AnalysisError("C08.R2: result writer does not write .dat/.smp through with_suffix (idiom not recognised)")
+            i_d, i_s = first_write[".dat"], first_write[".smp"]
+            gone = lambda sfx, before: any(k == "unlink" and s_ == sfx for k, s_, _ in ops[:before])  # noqa: E731
+            if not gone(".smp", i_d):
                 res.violation(
                     "C08.R2",
                     fi,
-                    wx.ast,
-                    f"'{x_suf}' is rewritten while the '{y_suf}' file of an earlier product is neither removed nor already rewritten: a crash before '{y_suf}' is written leaves a pair "
-                    "that from_files() loads without error although its two files belong to different products",
-                    key_extra=f"{x_suf[1:]}-rewritten-beside-stale-{y_suf[1:]}",
+                    ops[i_d][2].node,
+                    "'.dat' is rewritten while a stale '.smp' of an earlier product may exist: a crash between the two writes leaves a pair "
+                    "that from_files() loads without error although data and samples belong to different products",
+                    key_extra="dat-rewritten-beside-stale-smp",
                 )
-        # the samples file is the guarded content: it must be invalidated before the header file is rewritten
-        inval = list(unlinks.get(".smp", []))
-        for h in cfg.nodes:
-            # a loop over a non-empty literal runs at least once: if every iteration unlinks, the header counts
-            if h.kind == "for" and isinstance(h.expr, (ast.Tuple, ast.List)) and h.expr.elts:
-                starts = [cfg.nodes[j] for j, lab in cfg.succ[h.id] if lab == "n"]
-                body = cfg.reach(starts, avoid=lambda x: x in inval or x is h)
-                skips = any(j == h.id for i in body if cfg.nodes[i] not in inval for j, _ in cfg.succ[i]) and not all(s_ in inval for s_ in starts)
-                if inval and not skips:
-                    inval.append(h)
-        reach = cfg.reach([cfg.entry], avoid=lambda x: x in inval)
-        if dat.id in reach:
-            res.violation(
-                "C08.R2",
-                fi,
-                dat.ast,
-                "'.dat' is rewritten while a stale '.smp' of an earlier product may exist: a crash between the two writes leaves a pair "
-                "that from_files() loads without error although data and samples belong to different products",
-                key_extra="dat-rewritten-beside-stale-smp",
-            )
-        else:
-            res.ok("C08.R2", res.site(fi, "write .dat"), "stale .smp is unlinked on every path before .dat is rewritten")
+            elif not (i_d < i_s or gone(".dat", i_s)):
+                res.violation(
+                    "C08.R2",
+                    fi,
+                    ops[i_s][2].node,
+                    "'.smp' is rewritten while the '.dat' file of an earlier product is neither removed nor already rewritten: a crash before '.dat' is written leaves a pair "
+                    "that from_files() loads without error although its two files belong to different products",
+                    key_extra="smp-rewritten-beside-stale-dat",
+                )
+            else:
+                res.ok("C08.R2", res.site(fi, "write .dat"), "stale .smp is unlinked on every path before .dat is rewritten; .smp is rewritten only beside the new .dat")
+        if n_seq == 0:
+            raise AnalysisError(f"C08.R2: no path of {fi.short} writes result files")
 
 
 # ----------------------------------------------------------------------------- R3 read requires marker
